@@ -104,6 +104,15 @@ pub fn samples(_seed: u64) -> Vec<Sample> {
     for (i, l) in [crate::richdoc::Layout::Classic, crate::richdoc::Layout::XrefStream].iter().enumerate() {
         v.push(Sample { name: format!("rich-{}", i), bytes: crate::richdoc::write(&crate::richdoc::objects(), *l, b""), password: vec![] });
     }
+    // a page tree deeper than any bound a loader might use (typed loads of a node load its ancestors eagerly)
+    {
+        use crate::mkpdf::{arr, dict, ints, name, rf, Obj};
+        let depth = 24u32;
+        let mut o = vec![(1, dict(vec![("Type", name("Catalog")), ("Pages", rf(2))]))];
+        for k in 0..depth { let mut d = vec![("Type", name("Pages")), ("Kids", arr(vec![rf(3 + k)])), ("Count", Obj::Int(1))]; if k > 0 { d.push(("Parent", rf(1 + k))); } else { d.push(("MediaBox", ints(&[0, 0, 10, 10]))); } o.push((2 + k, dict(d))); }
+        o.push((2 + depth, dict(vec![("Type", name("Page")), ("Parent", rf(1 + depth))])));
+        v.push(Sample { name: "deep-page-tree-24".into(), bytes: crate::mkpdf::simple_doc(&o, 1, vec![]), password: vec![] });
+    }
     // images whose filter chain splits into "normal" and "image" filters
     {
         use crate::mkpdf::{arr, name, rf, stream, Obj};
